@@ -345,6 +345,12 @@ fn volume_run(server: bool, windows: u64, out: &mut Out) {
 /// Window `w`, then at least `total` bytes in 16 MiB calls: every acknowledgement in exactly the
 /// call that crosses the window, with the right count, also after the total passes 2^32.
 pub fn volume_run_w(server: bool, w: u32, total: u64, out: &mut Out) {
+    volume_run_opt(server, w, total, true, out)
+}
+
+/// `judge_acks`: false = only panics, errors and undecodable output are reported (C03's use: what
+/// an acknowledgement says and when it comes is C17's statement, not C03's)
+pub fn volume_run_opt(server: bool, w: u32, total: u64, judge_acks: bool, out: &mut Out) {
     out.eval(1);
     rml_rtmp::verif_hooks::set_clock_ms(Some(5));
     let mut enc = Encoder::new();
@@ -405,6 +411,10 @@ pub fn volume_run_w(server: bool, w: u32, total: u64, out: &mut Out) {
                             return false;
                         }
                     }
+                }
+                if !judge_acks {
+                    *acks_seen += acks.len() as u64;
+                    return true;
                 }
                 match (acks.len(), expect) {
                     (0, None) => true,
